@@ -15,7 +15,7 @@ import sys
 
 from detsim import kernel
 from detsim.kernel import EventLog, jdump, short_hash
-from detsim.sched import Sched, SimCancelled, StepBudgetExceeded, Replay, RoundRobin, draw_decider, Decider, wrap_module_locks
+from detsim.sched import Sched, SimCancelled, StepBudgetExceeded, Replay, RoundRobin, draw_decider, Decider, wrap_module_locks, sut_code_objects
 from checks.common import CheckBase
 
 RUN_STEP_BUDGET = 1500000
@@ -82,6 +82,8 @@ class C20(CheckBase):
         self.app.logger.disabled = True
         logging.getLogger('werkzeug').disabled = True
         self.rules = sorted(r.rule for r in self.app.url_map.iter_rules() if r.endpoint != 'static')
+        self.sut_codes = sut_code_objects([m for n, m in sorted(sys.modules.items())
+                                            if m is not None and (n == 'api.app' or n == 'geodepy' or n.startswith('geodepy.'))])
         # locks owned by the system under test must never block the baton holder
         self.wrapped_locks = wrap_module_locks([m for n, m in sorted(sys.modules.items())
                                                 if m is not None and (n == 'api.app' or n == 'geodepy' or n.startswith('geodepy.'))])
@@ -149,7 +151,7 @@ class C20(CheckBase):
                {'id': 2, 'req': 1, 'client': 0, 'abort': None, 'dup': True}, {'id': 3, 'req': 0, 'client': 1, 'abort': None, 'dup': True}]
         return {'property': 'C20', 'threads': 2, 'requests': [ra, rb], 'ops': ops, 'faults': [],
                 'sched': {'mode': 'rng', 'seed': rng.getrandbits(64)}, 'switches': [], 'shuffle_seed': rng.getrandbits(32),
-                'pair_sweep': True}
+                'pair_sweep': True, 'granularity': 'instr' if rng.random() < 0.5 else 'line'}
 
     def generate(self, rng, i, tier):
         if i < self.N_PAIR_SWEEP:
@@ -204,7 +206,8 @@ class C20(CheckBase):
             faults.append({'kind': 'stall', 'thread': rng.randrange(T), 'at': rng.randrange(1, 2000), 'for': rng.choice([100, 1000, 10000])})
         return {'property': 'C20', 'threads': T, 'requests': reqs, 'ops': ops, 'faults': faults,
                 'sched': {'mode': 'rng', 'seed': rng.getrandbits(64)}, 'switches': [],
-                'shuffle_seed': rng.getrandbits(32)}
+                'shuffle_seed': rng.getrandbits(32),
+                'granularity': 'instr' if T > 1 and not fault_run and len(ops) <= 20 and rng.random() < 0.4 else 'line'}
 
     # ------------------------------------------------------------- references
     def _ref_child(self, req):
@@ -291,7 +294,11 @@ class C20(CheckBase):
                 n = lines_of[key]
                 if n >= 1:
                     fault_map[(o['id'], min(n, 1 + int(o['abort'] * n)))] = 'cancel'
-        sched = Sched(T, decider, log, self.is_sut_file, max_steps=RUN_STEP_BUDGET, faults=fault_map, stalls=stalls)
+        instr = trace.get('granularity') == 'instr' and not fault_map
+        sched = Sched(T, decider, log, self.is_sut_file, max_steps=RUN_STEP_BUDGET * (8 if instr else 1), faults=fault_map, stalls=stalls,
+                      instruction_codes=self.sut_codes if instr else None)
+        if instr:
+            bump('instruction_granularity_runs')
         per_thread = [[o for o in ops if o['client'] % T == t] for t in range(T)]
         log.add('cfg', T, len(ops), decider.describe(), sorted(fault_map.items()), stalls)
         cur = [None] * T
